@@ -192,6 +192,28 @@ pub fn run_case(rng: &mut Rng, sc: &Scenario, cfg: &RunCfg, model: &mut Model, r
     let mut local_violation = false;
     // C09: (volume, path, flushed length, digest) of files known to be safely on the medium
     let mut flushed: Vec<(usize, Vec<Name>, usize, u64)> = Vec::new();
+    if cfg.flushed_survives {
+        // files that are on the medium before the history starts are flushed data too: a sample of them,
+        // preferring late entries of large directories (they live in later clusters of the chain)
+        for (vi, v) in sc.vols.iter().enumerate() {
+            fn walk(d: &RefDir, path: &mut Vec<Name>, out: &mut Vec<(Vec<Name>, usize, u64)>) {
+                for (n, c) in d.children.iter().rev() {
+                    path.push(*n);
+                    match c {
+                        RefNode::File(f) if !f.opaque && !f.data.is_empty() => out.push((path.clone(), f.data.len(), fnv64(&f.data))),
+                        RefNode::Dir(dd) => walk(dd, path, out),
+                        _ => {}
+                    }
+                    path.pop();
+                }
+            }
+            let mut all = Vec::new();
+            walk(&v.tree, &mut Vec::new(), &mut all);
+            for (p, len, dig) in all.into_iter().take(6) {
+                flushed.push((vi, p, len, dig));
+            }
+        }
+    }
     let mut free_changed = vec![false; sc.vols.len()];
     let replay_of = |ops: &Vec<Op>, outcomes: &Vec<Outcome>, step: usize, sc: &Scenario, extra: J| -> J {
         J::obj(vec![
@@ -520,7 +542,7 @@ pub fn run_case(rng: &mut Rng, sc: &Scenario, cfg: &RunCfg, model: &mut Model, r
             for (vi, v) in sc.vols.iter().enumerate() {
                 lines.push(Line { req: geom_line(&v.layout), expect: Expect::Setup, step: ops.len() });
                 if cfg.leak_at_quiescent {
-                    lines.push(Line { req: "fsck live".to_string(), expect: Expect::Capture("leak-check".into()), step: ops.len() });
+                    lines.push(Line { req: "fsck quiesced".to_string(), expect: Expect::Capture("leak-check".into()), step: ops.len() });
                 }
                 if cfg.tree_at_quiescent {
                     let mut want = Vec::new();
@@ -558,7 +580,8 @@ pub fn run_case(rng: &mut Rng, sc: &Scenario, cfg: &RunCfg, model: &mut Model, r
                 }
             }
             Expect::OraclePrefix(prefix, what) => {
-                if diverged {
+                // after a divergence only the verdicts that do not depend on the model's state count
+                if diverged && l.req == "fsck live" {
                     continue;
                 }
                 rep.oracle_checks += 1;
@@ -571,9 +594,6 @@ pub fn run_case(rng: &mut Rng, sc: &Scenario, cfg: &RunCfg, model: &mut Model, r
                 }
             }
             Expect::Capture(what) => {
-                if diverged {
-                    continue;
-                }
                 rep.oracle_checks += 1;
                 if what == "leak-check" {
                     // "ok dirs=.. files=.. used=U reach=R leaked=N:..."
@@ -768,7 +788,7 @@ pub fn c02(ctx: &Ctx) -> Report {
     let mut rng = Rng::new(ctx.seed ^ 0xC02);
     let n = budget(ctx, 40, 1200);
     for k in 0..n {
-        let o = ScOpts { fat32: Some(k % 3 == 0), multi_volume: k % 7 == 6, ..Default::default() };
+        let o = ScOpts { fat32: Some(k % 3 == 0), multi_volume: k % 7 == 6, full_dir: k % 4 == 1, bpc_choices: vec![1, 1, 2, 4], ..Default::default() };
         let sc = make_scenario(&mut rng, &o);
         let mut cfg = RunCfg::base(budget(ctx, 45, 70), Profile::namespace());
         cfg.profile.w_write = 10;
@@ -786,7 +806,7 @@ pub fn c03(ctx: &Ctx) -> Report {
     let mut rng = Rng::new(ctx.seed ^ 0xC03);
     let n = budget(ctx, 40, 1200);
     for k in 0..n {
-        let o = ScOpts { fat32: Some(k % 4 == 0), keep_free: if k % 2 == 0 { Some(vec![0, 1, 2, 5]) } else { None }, small_root: k % 3 == 1, big_tree: k % 3 != 1, ..Default::default() };
+        let o = ScOpts { fat32: Some(k % 4 == 0), keep_free: if k % 2 == 0 { Some(vec![0, 1, 2, 5]) } else { None }, small_root: k % 3 == 1, big_tree: k % 3 != 1, full_dir: k % 3 == 2, bpc_choices: vec![1, 1, 2, 4], ..Default::default() };
         let sc = make_scenario(&mut rng, &o);
         let mut cfg = RunCfg::base(budget(ctx, 40, 60), if k % 2 == 0 { Profile::space() } else { Profile::namespace() });
         cfg.fsck_every_op = true;
@@ -816,7 +836,7 @@ pub fn c05(ctx: &Ctx) -> Report {
     let mut rng = Rng::new(ctx.seed ^ 0xC05);
     let n = budget(ctx, 40, 1000);
     for k in 0..n {
-        let o = ScOpts { fat32: Some(k % 4 == 0), keep_free: Some(vec![0, 1, 2, 3, 7, 20]), big_tree: k % 2 == 0, ..Default::default() };
+        let o = ScOpts { fat32: Some(k % 4 == 0), keep_free: Some(vec![0, 1, 2, 3, 7, 20]), big_tree: k % 2 == 0, full_dir: k % 5 == 3, bpc_choices: vec![1, 1, 2, 4], ..Default::default() };
         let sc = make_scenario(&mut rng, &o);
         let mut cfg = RunCfg::base(budget(ctx, 50, 80), Profile::space());
         cfg.quiesce_every = 12;
@@ -832,7 +852,7 @@ pub fn c06(ctx: &Ctx) -> Report {
     let mut rng = Rng::new(ctx.seed ^ 0xC06);
     let n = budget(ctx, 50, 1500);
     for k in 0..n {
-        let o = ScOpts { fat32: Some(k % 2 == 0), small_root: k % 4 == 1, ..Default::default() };
+        let o = ScOpts { fat32: Some(k % 2 == 0), small_root: k % 4 == 1, full_dir: k % 3 == 0, bpc_choices: vec![1, 1, 2, 4], ..Default::default() };
         let sc = make_scenario(&mut rng, &o);
         let mut cfg = RunCfg::base(budget(ctx, 40, 60), Profile::namespace());
         cfg.profile.w_list = 14;
@@ -944,7 +964,7 @@ pub fn c09(ctx: &Ctx) -> Report {
     let mut rng = Rng::new(ctx.seed ^ 0xC09);
     let n = budget(ctx, 30, 1000);
     for k in 0..n {
-        let o = ScOpts { fat32: Some(k % 3 == 0), dirty: k % 2 == 0, keep_free: if k % 4 == 0 { Some(vec![2, 5, 30]) } else { None }, small_root: k % 5 == 1, bpc_choices: vec![1, 2, 4], ..Default::default() };
+        let o = ScOpts { fat32: Some(k % 3 == 0), dirty: k % 2 == 0, keep_free: if k % 4 == 0 { Some(vec![2, 5, 30]) } else { None }, small_root: k % 5 == 1, bpc_choices: vec![1, 2, 4], full_dir: k % 2 == 1, ..Default::default() };
         let sc = make_scenario(&mut rng, &o);
         let mut cfg = RunCfg::base(budget(ctx, 40, 60), Profile::namespace());
         cfg.profile.w_flush = 10;
@@ -961,7 +981,7 @@ pub fn c10(ctx: &Ctx) -> Report {
     let mut rng = Rng::new(ctx.seed ^ 0xC10);
     let n = budget(ctx, 30, 1000);
     for k in 0..n {
-        let o = ScOpts { fat32: Some(k % 3 == 0), dirty: true, keep_free: if k % 3 == 1 { Some(vec![1, 2, 4, 9]) } else { None }, small_root: k % 4 == 1, bpc_choices: vec![1, 2, 4], big_tree: k % 2 == 0, ..Default::default() };
+        let o = ScOpts { fat32: Some(k % 3 == 0), dirty: true, keep_free: if k % 3 == 1 { Some(vec![1, 2, 4, 9]) } else { None }, small_root: k % 4 == 1, bpc_choices: vec![1, 2, 4], big_tree: k % 2 == 0, full_dir: k % 3 == 2, ..Default::default() };
         let sc = make_scenario(&mut rng, &o);
         let mut cfg = RunCfg::base(budget(ctx, 35, 50), if k % 2 == 0 { Profile::namespace() } else { Profile::space() });
         cfg.crash_prefixes = true;
